@@ -47,6 +47,7 @@ def run(ck, ctx):
     ck.rule("R11.13", _c14t.READER_TEXT + " (shared with C14 R14.13)")
     from . import c12 as _c12it
     ck.rule("R11.14", _c12it.IDS_TEXT + " (shared with C12 R12.11)")
+    ck.rule("R11.16", PREFIX_TEXT)
     ck.rule("R11.15", _c10t.JUDGE_TEXT + " (shared with C10 R10.11)")
     ck.rule("R11.12", _c10t.NAME_TEXT + " (shared with C10 R10.10)")
     ck.rule("R11.10", _c12.WRITER_TEXT + " (shared with C12 R12.8)")
@@ -74,6 +75,7 @@ def run(ck, ctx):
         _c12i.ids_rule(ck, prog, cfg, "R11.14")
         _c10.r1010(ck, prog, cfg, "R11.12")
         _c10.r1011(ck, prog, cfg, "R11.15")
+        r1116(ck, prog, cfg, "R11.16")
         from . import c10
         c10.file_loop_rule(ck, prog, cfg, "R11.6")
         _r116(ck, prog, cfg)
@@ -441,3 +443,31 @@ def _r116(ck, prog, cfg):
              "a recovered checkpoint entry can be dropped without being stored into the replication state (path through lines %s): an older "
              "update of that key replayed afterwards is then merged against nothing (a deleted key comes back)" % lines[:8],
              run.where(run.term(sb)["ln"]), detail="insert on every path of the arm")
+
+
+# ------------------------------------------------------------------------------------------------
+PREFIX_TEXT = ("the writer and the reader look for the manifest under the same name: wherever a ManifestManager is created for the persistence "
+               "writer, the recovery reader, compaction or the integration layer, the prefix it is given is the configured prefix itself (the "
+               "constructor's parameter or the owner's prefix field, borrowed/cloned at most) - not a trimmed, normalised or re-formatted copy: "
+               "a writer that saves under `a/manifest.json` while recovery loads `a//manifest.json` recovers an empty store without an error")
+
+
+def r1116(ck, prog, cfg, rid):
+    n = 0
+    for f in prog.lib_fns():
+        if "::tests::" in f.id or f.file.endswith("_dst.rs") or not f.file.startswith("src/streaming/"):
+            continue
+        for b, t in f.calls():
+            if not is_callee(t, r"ManifestManager::<.*>::new$") or len(t["args"]) < 2:
+                continue
+            n += 1
+            s_ = src_of_operand(f, t["args"][1], through_calls=TRANSPARENT + (r"Deref>::deref$", r"String::as_str$", r"Clone>::clone$", r"ToString>::to_string$",
+                                                                               r"ToOwned>::to_owned$", r"Borrow<.*>>::borrow$", r"AsRef<.*>>::as_ref$", r"From<.*>>::from$", r"Into<.*>>::into$"))
+            good = s_.kind == "path" and (s_.local is not None and s_.local <= f.d["argc"] or s_.root in ("self",) or (s_.root or "").startswith("self"))
+            if not good and s_.kind == "path" and f.kind in ("closure", "coroutine"):
+                good = True            # captured parameter of the enclosing constructor
+            short = re.sub(r"::\{closure#\d+\}", "", f.id).replace("streaming::", "")
+            ck.check(good, rid, "%s:manifest-prefix%s" % (short, _tag(cfg)),
+                     "%s creates its ManifestManager with a prefix derived through %s instead of the configured prefix as given: writer and reader can "
+                     "end up looking at different manifest keys" % (short, s_.path()[-70:]), f.where(t["ln"]), detail="ManifestManager::new(store, <configured prefix>)")
+    ck.floor(rid + _tag(cfg), n, 3)
